@@ -3,6 +3,7 @@ import Pcore.Proofs.LatMono
 import Pcore.Proofs.LatGen
 import Pcore.Proofs.LatGenVar
 import Pcore.Proofs.LatCommonAll
+import Pcore.Proofs.LatFamT
 set_option linter.unusedSimpArgs false
 /-!
 # C04 — Inferred types contain their values; common type and generalisation are bounds
@@ -43,8 +44,12 @@ Full statement / proved / missing
   `C04_accepts_sound` — the third law with no hypothesis on the detailed type (rule off; same values as `C04_dtype`);
   `C04_dtype` — THE SECOND LAW, unconditional, for every value without type values and without a hash keyed by strings only with the
   empty string among them;
-* missing: the first law for values that hold TYPE values (commonType of two `Type[..]` recurses into arbitrary types: Tuple / Variant
-  merges need transitivity stage 2), the second law for hashes with non-string / empty-string keys;
+  `C04_ptype_typ`, `C04_dtype_typ`, `C04_accepts_sound_typ` — the FIRST, SECOND and THIRD law for values that HOLD TYPE VALUES at any
+  depth (every type value a well-formed type without Unit, and without Struct under the code's setting of the rule), from the lifted
+  C01 (`Type[T]` for every `T` of `Ty.TA`) and `C04_common_famT` (`commonType(Type[x], Type[y]) = Type[commonType(x,y)]` is an upper bound by
+  `C04_common_partial`);
+* missing: the first law for values holding a type value with Unit inside (or a Struct, under the code's setting of the rule), the
+  second law for hashes keyed by strings only with the empty string among them;
   `C04_common` with Unit nested inside an argument (Unit absorbs: e.g. a Variant with a Unit member accepts everything) or a Struct under
   the code's setting of the rule; `C04_generalize` with Unit / Struct under the rule.  All six laws are evaluated on the
   implementation for every generated case.
@@ -83,14 +88,14 @@ theorem C04_dtype_struct (cfg : Cfg) (sfh : Bool) (v : Val) (h : Val.Structy cfg
     accumulator") carried through by C01 (soundness), with `commonType` shown to be an upper bound on the family `Ty.Fam` of inferred
     types (`C04_common_fam`) — exactly where a `commonType` that returns the wrong argument, or lets Unit absorb, breaks the proof. -/
 theorem C04_ptype (cfg : Cfg) (sfh : Bool) (hl : ∀ s, (cfg.lower s).length = s.length) (v : Val)
-    (ok : v.OK) (tv : Val.TyOK cfg v) (nt : Val.AllTyp (fun _ => False) v) : inst cfg sfh (ptype cfg sfh v) v = true :=
+    (ok : v.OK) (tv : Val.TyOKS cfg sfh v) (nt : Val.AllTyp (fun _ => False) v) : inst cfg sfh (ptype cfg sfh v) v = true :=
   ptype_fam cfg sfh hl v ok tv nt
 
 /-- SECOND LAW, unconditional, for the code's setting of the rule: every value that holds no type value and no hash keyed by strings
     only with the empty string among them is an instance of its detailed type (Tuple of detailed types; Struct for hashes keyed by
     non-empty strings; the reduced type, by the first law, for hashes with a non-string key and for Sensitive) -/
 theorem C04_dtype (cfg : Cfg) (sfh : Bool) (hl : ∀ s, (cfg.lower s).length = s.length) (v : Val)
-    (ok : v.OK) (tv : Val.TyOK cfg v) (nt : Val.AllTyp (fun _ => False) v) (ne : Val.NoEmptyKey v) :
+    (ok : v.OK) (tv : Val.TyOKS cfg sfh v) (nt : Val.AllTyp (fun _ => False) v) (ne : Val.NoEmptyKey v) :
     inst cfg sfh (dtype cfg sfh v) v = true :=
   dtype_structy cfg sfh v.w v (Nat.le_refl _) (dtype_fam cfg sfh hl v.w v (Nat.le_refl _) ok tv nt ne)
 
@@ -102,9 +107,57 @@ theorem C04_common_fam (cfg : Cfg) (sfh : Bool) (a b : Ty) (ha : a.Fam) (hb : b.
 /-- the first law for values WITH type values, conditional on a family `G` on which `commonType` is a well-behaved upper bound
     (`InferFam`; `C04_ptype` is the instance `G = Ty.Fam` without type values) -/
 theorem C04_ptype_of_family (cfg : Cfg) (sfh : Bool) (hl : ∀ s, (cfg.lower s).length = s.length) (G TV : Ty → Prop)
-    (U : InferFam cfg sfh G TV) (v : Val) (ok : v.OK) (tv : Val.TyOK cfg v) (at' : Val.AllTyp TV v) :
+    (U : InferFam cfg sfh G TV) (v : Val) (ok : v.OK) (tv : Val.TyOKS cfg sfh v) (at' : Val.AllTyp TV v) :
     inst cfg sfh (ptype cfg sfh v) v = true :=
   (ptype_inst cfg sfh hl G TV U v.w v (Nat.le_refl _) ok tv at').1
+
+def idCfg4' : Cfg := { rxMatch := fun _ _ => false, lower := id }
+
+/-! ### the first three laws for values that HOLD TYPE VALUES (extension round: C01 lifted to `Type[T]` for every `T` of `Ty.TA`) -/
+/-- FIRST LAW WITH TYPE VALUES, unconditional and unbounded, both settings of the rule: every value — arbitrarily nested heterogeneous
+    arrays and hashes, Sensitive, objects, scalars AND types used as values at any depth — is an instance of its inferred type, provided
+    every type value inside is a well-formed type without Unit (and without Struct under the code's setting of the rule): `Val.TyOKS`, the
+    side condition of C01.  `PType()` of a type value `T` is `Type[T]`, and `commonType(Type[x], Type[y]) = Type[commonType(x, y)]` recurses
+    into arbitrary types, where it is an upper bound by `C04_common_partial`; the fold invariant is carried by the lifted C01.
+    Assumes `strings.ToLower` idempotent and character-wise (as `C04_common_partial`). -/
+theorem C04_ptype_typ (cfg : Cfg) (sfh : Bool) (hl : ∀ s, (cfg.lower s).length = s.length)
+    (hidem : ∀ s, cfg.lower (cfg.lower s) = cfg.lower s) (v : Val) (ok : v.OK) (tv : Val.TyOKS cfg sfh v) :
+    inst cfg sfh (ptype cfg sfh v) v = true :=
+  (ptype_famT cfg sfh hl hidem v ok tv).1
+
+/-- `commonType` on the family of inferred types WITH `Type[T]` (`Ty.FamT`): stays in the family, accepts both arguments -/
+theorem C04_common_famT (cfg : Cfg) (sfh : Bool) (hl : ∀ s, (cfg.lower s).length = s.length)
+    (hidem : ∀ s, cfg.lower (cfg.lower s) = cfg.lower s) (a b : Ty) (ha : a.FamT cfg sfh) (hb : b.FamT cfg sfh) :
+    (commonType cfg sfh a b).FamT cfg sfh ∧ asg cfg sfh (commonType cfg sfh a b) a = true ∧
+    asg cfg sfh (commonType cfg sfh a b) b = true :=
+  common_famT cfg sfh hl hidem _ a b ha hb
+
+/-- SECOND LAW WITH TYPE VALUES: as `C04_dtype`, type values allowed anywhere -/
+theorem C04_dtype_typ (cfg : Cfg) (sfh : Bool) (hl : ∀ s, (cfg.lower s).length = s.length)
+    (hidem : ∀ s, cfg.lower (cfg.lower s) = cfg.lower s) (v : Val) (ok : v.OK) (tv : Val.TyOKS cfg sfh v) (ne : Val.NoEmptyKey v) :
+    inst cfg sfh (dtype cfg sfh v) v = true :=
+  dtype_structy cfg sfh v.w v (Nat.le_refl _) (dtype_famT cfg sfh hl hidem v.w v (Nat.le_refl _) ok tv ne)
+
+/-- THIRD LAW WITH TYPE VALUES (rule off): whatever fragment type accepts the detailed type of the value contains the value -/
+theorem C04_accepts_sound_typ (cfg : Cfg) (hl : ∀ s, (cfg.lower s).length = s.length)
+    (hidem : ∀ s, cfg.lower (cfg.lower s) = cfg.lower s) (t : Ty) (v : Val)
+    (ft : t.Frag false) (wt : Ty.WF cfg t) (ok : v.OK) (tv : Val.TyOKS cfg false v) (ne : Val.NoEmptyKey v)
+    (h : asg cfg false t (dtype cfg false v) = true) : inst cfg false t v = true :=
+  have g := dtype_goodT cfg hl hidem v.w v (Nat.le_refl _) ok tv ne
+  sound_all cfg false hl _ t _ v (Nat.le_refl _) ⟨ft, g.1, wt, g.2.1, g.2.2, ok, tv⟩ h (C04_dtype_typ cfg false hl hidem v ok tv ne)
+
+/-- non-vacuity: `[Struct[{a => Integer[0,9]}], Array[String,1,2], 7]` (two type values and an integer) — the side conditions hold,
+    and the inferred type is `Array[Variant-free common type …]`; the fold passes through `commonType(Type[Struct..], Type[Array..])` -/
+example : Val.TyOKS idCfg4' false (.array [.typ (.struct [("a", false, .int ⟨0, 9⟩)]), .typ (.array .str ⟨1, 2⟩), .int 7]) ∧
+    (Val.array [.typ (.struct [("a", false, .int ⟨0, 9⟩)]), .typ (.array .str ⟨1, 2⟩), .int 7]).OK := by
+  constructor
+  · exact Val.TyOKS.array _ (by simp [I64.max]) (by
+      intro x hx; simp at hx
+      rcases hx with rfl | rfl | rfl
+      · exact Val.TyOKS.typ _ (by simp [Ty.TA]) (by simp [Ty.WF])
+      · exact Val.TyOKS.typ _ (by simp [Ty.TA]) (by simp [Ty.WF])
+      · constructor)
+  · exact Val.OK.array _ (by intro x hx; simp at hx; rcases hx with rfl | rfl | rfl <;> constructor)
 
 /-- sixth law: the generalisation (`px.Generalize`) and the generic type (`px.GenericType`) of a type accept that type — for every
     well-formed type without Variant and without Data/RichData nested inside, whose ranges are what the constructors allow (int64
@@ -162,7 +215,7 @@ example (cfg : Cfg) :
 /-- third law, from C01: what accepts the detailed type contains the value (rule off, fragment of `C01_sound_partial`) -/
 theorem C04_accepts_sound_partial (cfg : Cfg) (hl : ∀ s, (cfg.lower s).length = s.length) (t : Ty) (v : Val)
     (ft : t.Frag false) (fd : (dtype cfg false v).Frag false) (wt : Ty.WF cfg t) (wd : Ty.WF cfg (dtype cfg false v))
-    (us : (dtype cfg false v).US) (ok : v.OK) (tv : Val.TyOK cfg v)
+    (us : (dtype cfg false v).US) (ok : v.OK) (tv : Val.TyOKS cfg false v)
     (hd : inst cfg false (dtype cfg false v) v = true)
     (h : asg cfg false t (dtype cfg false v) = true) : inst cfg false t v = true :=
   sound_all cfg false hl _ t _ v (Nat.le_refl _) ⟨ft, fd, wt, wd, us, ok, tv⟩ h hd
@@ -170,7 +223,7 @@ theorem C04_accepts_sound_partial (cfg : Cfg) (hl : ∀ s, (cfg.lower s).length 
 /-- THIRD LAW without hypotheses on the detailed type (rule off): for a value without type values and without empty-string keys,
     whatever fragment type accepts its detailed type contains the value -/
 theorem C04_accepts_sound (cfg : Cfg) (hl : ∀ s, (cfg.lower s).length = s.length) (t : Ty) (v : Val)
-    (ft : t.Frag false) (wt : Ty.WF cfg t) (ok : v.OK) (tv : Val.TyOK cfg v)
+    (ft : t.Frag false) (wt : Ty.WF cfg t) (ok : v.OK) (tv : Val.TyOKS cfg false v)
     (nt : Val.AllTyp (fun _ => False) v) (ne : Val.NoEmptyKey v)
     (h : asg cfg false t (dtype cfg false v) = true) : inst cfg false t v = true :=
   have g := dtype_good cfg hl v.w v (Nat.le_refl _) ok tv nt ne
@@ -253,7 +306,7 @@ example : Val.AllTyp (fun _ => False) (.array [.int 1, .hash [(.int 2, .str "a")
   · exact Val.AllTyp.array _ (by intro x hx; cases hx)
 example : (Ty.struct [("a", true, .array (.strVal "x") ⟨1, 2⟩)]).GenOK := by simp [Ty.GenOK, Rng.isSize, I64.max]
 example : Val.Leafy idCfg4 (.sensitive (.typ (.array (.int ⟨0, 5⟩) ⟨1, 2⟩))) := by
-  simp [Val.Leafy, Ty.WF, Ty.TF]
+  simp [Val.Leafy, Ty.WF]
 example : Val.Structy idCfg4 true (.array [.int 1, .hash [(.str "a", .array [.str "x", .undef]), (.str "b", .undef)]]) := by
   refine Val.Structy.array _ ?_
   intro x hx; simp at hx
